@@ -1,7 +1,7 @@
 #!/bin/sh
 # tools/formula_probe.sh <patch.diff>... — for each seeded change: translate a patched scratch copy of /repo/src and report which
 # formula theorems (Lemmas/Formulas/*) break.  Leaves lean/Decaf/Generated/Formulas.lean regenerated from /repo.
-MODS="MinDouble MinAdd MinNeg MinCompress ArkCompress MinElligator ArkElligator MinDecompress ArkDecompress Eq R1cs HashToCurve OpForms ArkSqrt"
+MODS="MinDouble MinAdd MinNeg MinCompress ArkCompress MinElligator ArkElligator MinDecompress ArkDecompress Eq R1cs HashToCurve OpForms ArkSqrt Ladder"
 T=""; for m in $MODS; do T="$T Decaf.Lemmas.Formulas.$m"; done
 for patch in "$@"; do
   rm -rf /tmp/fprobe && mkdir -p /tmp/fprobe && cp -r /repo/src /tmp/fprobe/src
